@@ -32,6 +32,7 @@ type c03nsCase struct {
 	Bits   int        `json:"prefix_bits"`
 	Events []c03Event `json:"traffic"`
 	Late   bool       `json:"last_reply_late_within_exit_delay"`
+	Rate   string     `json:"rate,omitempty"` // stretches the scan: a long quiet phase before the only reply
 }
 
 const (
@@ -39,14 +40,26 @@ const (
 	c03nsExitMs = 400
 )
 
+// the scanned subnet: inside the interface's network, clear of the interface's own address (.2)
+func c03nsSubnet(c c03nsCase) string {
+	host := 16
+	if c.Bits <= 27 {
+		host = 32
+	}
+	if c.Tun {
+		return fmt.Sprintf("10.8.0.%d/%d", host, c.Bits)
+	}
+	return fmt.Sprintf("192.168.50.%d/%d", host, c.Bits)
+}
+
 func c03nsRun(c c03nsCase, exitMs int) (*c17Report, []string, error) {
 	sx, tool := os.Getenv("VERIF_SX_BIN"), os.Getenv("VERIF_TOOL_NSRUN")
 	if sx == "" || tool == "" {
 		return nil, nil, fmt.Errorf("VERIF_SX_BIN / VERIF_TOOL_NSRUN not set")
 	}
-	iface, subnet := "e0", fmt.Sprintf("192.168.50.16/%d", c.Bits)
+	iface, subnet := "e0", c03nsSubnet(c)
 	if c.Tun {
-		iface, subnet = "t0", fmt.Sprintf("10.8.0.16/%d", c.Bits)
+		iface = "t0"
 	}
 	args := append([]string{}, strings.Fields(c.Cmd)...)
 	args = append(args, "--json", "--exit-delay", fmt.Sprintf("%dms", exitMs), "--srcip", c01SrcIP)
@@ -56,6 +69,9 @@ func c03nsRun(c c03nsCase, exitMs int) (*c17Report, []string, error) {
 	}
 	if len(c.Ports) > 0 {
 		args = append(args, "-p", renderPorts(c.Ports))
+	}
+	if c.Rate != "" {
+		args = append(args, "--rate", c.Rate)
 	}
 	args = append(args, subnet)
 	var inj []map[string]interface{}
@@ -95,7 +111,7 @@ func c03nsRun(c c03nsCase, exitMs int) (*c17Report, []string, error) {
 
 func c03nsJudge(c c03nsCase, rep *c17Report) (error, int, int) {
 	kind := scanKind(c.Cmd)
-	p, _ := gram.RefIPv4Target(map[bool]string{false: fmt.Sprintf("192.168.50.16/%d", c.Bits), true: fmt.Sprintf("10.8.0.16/%d", c.Bits)}[c.Tun])
+	p, _ := gram.RefIPv4Target(c03nsSubnet(c))
 	s := shape.Scan{Kind: kind, Ethernet: !c.Tun, Subnet: &p, Ports: c.Ports, AllPorts: c.Ports}
 	if kind == "icmp" || kind == "udp" || kind == "arp" {
 		s.Ports, s.AllPorts = nil, nil
@@ -160,7 +176,7 @@ func c03nsCheck(c c03nsCase) *kit.Verdict {
 	// C01 / C05 on the real adapter: the probes captured on the wire are exactly the specification, from the requested source
 	{
 		base := strings.Fields(c.Cmd)[0]
-		subnet := map[bool]string{false: fmt.Sprintf("192.168.50.16/%d", c.Bits), true: fmt.Sprintf("10.8.0.16/%d", c.Bits)}[c.Tun]
+		subnet := c03nsSubnet(c)
 		spec := gram.Spec{CIDR: subnet, Ports: c.Ports}
 		want, _ := spec.Denote(cmdPortless(base))
 		got := map[gram.Probe]int{}
@@ -236,7 +252,7 @@ func TestC03Netns(t *testing.T) {
 				}
 			}
 			// reuse the traffic generator of the virtual-wire check
-			subnet := map[bool]string{false: fmt.Sprintf("192.168.50.16/%d", c.Bits), true: fmt.Sprintf("10.8.0.16/%d", c.Bits)}[c.Tun]
+			subnet := c03nsSubnet(c)
 			vc := c03Case{Cmd: c.Cmd, VPN: c.Tun, Spec: gram.Spec{CIDR: subnet, Ports: c.Ports}}
 			want, _ := vc.Spec.Denote(cmdPortless(base))
 			seen := map[uint32]bool{}
@@ -271,5 +287,33 @@ func TestC03Netns(t *testing.T) {
 			return c
 		},
 		Check: c03nsCheck,
+	})
+}
+
+// A long, quiet scan (nothing matches the filter for seconds) and then one reply to the last probe, inside the exit delay.
+func TestC03NetnsQuiet(t *testing.T) {
+	kit.Run(t, kit.Spec[c03nsCase]{
+		Prop: "C03",
+		Rule: "real binary in a namespace, icmp or arp over a /27 at --rate 11..13/s (about 2.6 s of sending during which no frame matches the filter), then ONE reply-shaped frame as reaction to the last probe, inside the 400 ms exit delay. Oracle: that reply is reported (a receiver that has gone to sleep on a quiet wire loses it); probes = specification; the process does not run shorter than the delay. non-trivial: always; distinct by case",
+		Gen: func(t *rapid.T) c03nsCase {
+			c := c03nsCase{Cmd: rapid.SampledFrom([]string{"icmp", "arp", "icmp"}).Draw(t, "cmd"), Bits: 27, Late: true, Rate: fmt.Sprintf("%d/s", rapid.IntRange(11, 13).Draw(t, "rate"))}
+			if c.Cmd == "icmp" {
+				c.Tun = rapid.Bool().Draw(t, "tun")
+			}
+			src := uint32(192<<24|168<<16|50<<8) + 32 + uint32(rapid.IntRange(0, 31).Draw(t, "src"))
+			if c.Tun {
+				src = uint32(10<<24|8<<16) + 32 + uint32(rapid.IntRange(0, 31).Draw(t, "src2"))
+			}
+			kind := scanKind(c.Cmd)
+			c.Events = []c03Event{{AtWrite: 32, Frame: c16Reply(kind, !c.Tun, src, 0), Note: "late reply after a quiet scan"}}
+			return c
+		},
+		Check: func(c c03nsCase) *kit.Verdict {
+			v := c03nsCheck(c)
+			if v.Err == nil && !v.Inconclusive {
+				v.NonTrivial = true
+			}
+			return v
+		},
 	})
 }
